@@ -31,6 +31,12 @@ def check(ctx):
     from .c14 import neighbourhood
     neighbourhood(ctx)
     edges.check_walks(ctx, categories={'derivation', 'incompat-scan', 'default'})
+    # the connection part of the instance: source/target sides of the connection-matrix code mirror each other
+    # (index translations, degree limits), and an encoder cached on disk is only re-used for the same settings
+    from ..rules import symmetry
+    symmetry.check_side_symmetry(ctx)
+    from .c12 import cache_keys
+    cache_keys(ctx)
     if ctx.tier == 'thorough':
         # crash shapes program-wide (everything under optimization/ and graph/, not only the decode slice)
         from ..rules import shapes
